@@ -42,7 +42,7 @@ pub fn root_case(prop: &str, root: &Root, depth: u8, k: Option<u64>) -> Value {
 
 /// Positions for the search monitors: library + opening walks + synthesised, non-terminal, with
 /// and without history (cycles give counts of 2 in the table).
-pub fn search_roots(seed: u64, n: usize, h: &ZobristHasher, rich_only: bool) -> Vec<Root> {
+pub fn search_roots(seed: u64, n: usize, h: &ZobristHasher, swings: bool) -> Vec<Root> {
     let starts = workload::start_positions(seed, 40).unwrap_or_default();
     let mut rng = Rng::stream(seed, 0x5EA7C4);
     let mut out = Vec::new();
@@ -50,9 +50,17 @@ pub fn search_roots(seed: u64, n: usize, h: &ZobristHasher, rich_only: bool) -> 
     let mut guard = 0;
     while out.len() < n && guard < n * 20 {
         guard += 1;
-        let base = match i % 4 {
+        let base = match i % 6 {
             0 | 1 => starts[(i / 2) % starts.len()].clone(),
             2 => workload::synth_position(&mut rng),
+            3 if swings => workload::swing_position(&mut rng),
+            4 if swings => {
+                if rng.chance(1, 2) {
+                    workload::swing_position(&mut rng)
+                } else {
+                    workload::queen_storm_position(&mut rng)
+                }
+            }
             _ => starts[rng.below(starts.len() as u64) as usize].clone(),
         };
         i += 1;
@@ -69,9 +77,6 @@ pub fn search_roots(seed: u64, n: usize, h: &ZobristHasher, rich_only: bool) -> 
             }
         };
         if !has_legal_move(&hist.end) || !is_legal_position(&hist.end) {
-            continue;
-        }
-        if rich_only && hist.end.sq.iter().filter(|x| x.is_some()).count() < 6 {
             continue;
         }
         if let Ok(r) = make_root(hist, h) {
@@ -318,6 +323,7 @@ pub fn run_c07(tier: Tier, seed: u64) -> i32 {
         "the two-thread schedule clause (send after the receiver is gone) is observed on the hooked binary under failpoints in the same check (section 'schedules' of the evidence)".into(),
     ];
     let h = ZobristHasher::create_zobrist_hasher();
+    let t_phase = std::time::Instant::now();
     let n_roots = tier.pick(80usize, 800);
     let roots = search_roots(seed, n_roots, &h, false);
     let all_below = tier.pick(1200u64, 5000);
@@ -331,7 +337,8 @@ pub fn run_c07(tier: Tier, seed: u64) -> i32 {
             jobs.push((i, d));
         }
     }
-    let results = par::par_map(jobs.len(), |j| {
+    // stage 1: the unaborted run of every (root, D) and the expiry indices to try
+    let stage1 = par::par_map(jobs.len(), |j| {
         let (ri, d) = jobs[j];
         let root = &roots[ri];
         let mut acc = Acc::new();
@@ -350,20 +357,39 @@ pub fn run_c07(tier: Tier, seed: u64) -> i32 {
             acc.sample(json!({"position_command": truncate(&root.hist.command(), 200), "depth_limit": d, "clock_queries": q, "unaborted_events": nev_text(&finf.events).into_iter().take(6).collect::<Vec<_>>()}));
         }
         if rinf.panic.is_some() {
-            return acc;
+            return (acc, finf, Vec::new(), BTreeSet::new(), q);
         }
         let (ks, all) = choose_ks(q, &rinf, &mut rng, all_below, random_n);
         if all {
             acc.count("roots_enumerated_exhaustively", 1);
         }
         let null_set: BTreeSet<u64> = rinf.report.null_entry_queries.iter().copied().collect();
-        for k in ks {
+        (acc, finf, ks, null_set, q)
+    });
+    // stage 2: the aborted runs, in chunks so that one expensive root does not serialise the tail
+    let mut chunks: Vec<(usize, usize, usize)> = Vec::new();
+    for (j, s1) in stage1.iter().enumerate() {
+        let n = s1.2.len();
+        let mut a = 0;
+        while a < n {
+            let b = (a + 24).min(n);
+            chunks.push((j, a, b));
+            a = b;
+        }
+    }
+    let results = par::par_map(chunks.len(), |c| {
+        let (j, a, b) = chunks[c];
+        let (ri, d) = jobs[j];
+        let root = &roots[ri];
+        let (_, finf, ks, null_set, q) = &stage1[j];
+        let mut acc = Acc::new();
+        for &k in &ks[a..b] {
             let rk = run_search(&root.board, &root.table, Some(k), d);
             acc.evaluations += 1;
             acc.count("runs_rk", 1);
             let fk = check_run("C07", root, d, Some(k), &rk, &mut acc);
             check_prefix(root, d, k, &fk.events, &finf.events, &mut acc);
-            if k > 0 && k < q {
+            if k > 0 && k < *q {
                 acc.distinct.insert(hash64(&format!("{}|{}|{}", root.hist.command(), d, k)));
                 acc.feature(&format!("expiry_inside_search_D{}", d));
                 if null_set.contains(&k) {
@@ -379,7 +405,11 @@ pub fn run_c07(tier: Tier, seed: u64) -> i32 {
     for a in results {
         run.acc.merge(a, &["max_ply_seen"]);
     }
+    for (a, ..) in stage1 {
+        run.acc.merge(a, &["max_ply_seen"]);
+    }
     run.set("roots", json!(roots.len()));
+    let t_enum = t_phase.elapsed().as_secs_f64();
     // Deep iterations: roots whose iterations are cheap (a repetition draw is available to a
     // lost side, a forced mate, bare kings) are searched with an iteration limit of 99 and the
     // allowance expiring after a budget of clock queries, so that the per-ply tables and the
@@ -408,7 +438,10 @@ pub fn run_c07(tier: Tier, seed: u64) -> i32 {
     for a in results {
         run.acc.merge(a, &["max_ply_seen", "deep_max_iteration_reached", "deep_max_ply_seen"]);
     }
+    let t_deep = t_phase.elapsed().as_secs_f64();
     super::timed::c07_schedules(&mut run);
+    let t_sched = t_phase.elapsed().as_secs_f64();
+    run.set("phase_seconds", json!({"enumeration": t_enum, "deep_iterations": t_deep - t_enum, "schedules_blackbox": t_sched - t_deep}));
     run.floor_distinct = 1000;
     run.finish()
 }
@@ -427,7 +460,7 @@ pub fn run_c12(tier: Tier, seed: u64) -> i32 {
     ];
     let h = ZobristHasher::create_zobrist_hasher();
     let n_roots = tier.pick(800usize, 8000);
-    let roots = search_roots(seed, n_roots, &h, false);
+    let roots = search_roots(seed, n_roots, &h, true);
     let budget = tier.pick(3_000_000u64, 30_000_000);
     let results = par::par_map(roots.len(), |j| {
         let mut acc = Acc::new();
